@@ -38,7 +38,7 @@ fn check_ym(r: &crate::error::Result<IntervalYM>, p: f64) {
     }
 }
 
-//@ unit c14_ym_mul prop=C14,C02,C03 chunks=ints:2136000000,1,-1,11,-13,1000,1068000000,7,-2136000000 quickn=4 mem=4 timeout=900/3600 bound="year-month interval = the parameter (months), multiplier = every f64 (all bit patterns): NaN -> InvalidNumber, infinite -> NumericOverflow, |product| >= max+1 -> IntervalOutOfRange, otherwise Ok(product truncated toward zero)"
+//@ unit c14_ym_mul prop=C14,C02,C03 chunks=ints:2136000000,11,-2136000000/ints:2136000000,11,-2136000000,1,-1,-13,1000,1068000000,7 mem=4 timeout=900/3600 quick=all bound="year-month interval = the parameter (months), multiplier = every f64 (all bit patterns): NaN -> InvalidNumber, infinite -> NumericOverflow, |product| >= max+1 -> IntervalOutOfRange, otherwise Ok(product truncated toward zero)"
 fn c14_ym_mul(v: i32) {
     let k: f64 = kani::any();
     let p = v as f64 * k;
@@ -118,7 +118,7 @@ fn c14_ym_div_special(v: i32) {
     kani::cover!(k.is_infinite());
 }
 
-//@ unit c14_ym_int prop=C14,C02,C03 chunks=ints:2136000000,1,-1,12,-13,1000,178000000,7,-2136000000 quickn=4 mem=4 timeout=900/3600 bound="year-month interval = the parameter, factor = every i32 (as f64): the product is exact (x*k, or IntervalOutOfRange when it leaves the range); the quotient is exact whenever k divides x"
+//@ unit c14_ym_int prop=C14,C02,C03 chunks=ints:2136000000,-13,1000,-2136000000/ints:2136000000,-13,1000,-2136000000,1,-1,12,178000000,7 mem=4 timeout=900/3600 quick=all bound="year-month interval = the parameter, factor = every i32 (as f64): the product is exact (x*k, or IntervalOutOfRange when it leaves the range); the quotient is exact whenever k divides x"
 fn c14_ym_int(v: i32) {
     let ki: i32 = kani::any();
     let prod = v as i64 * ki as i64;
@@ -136,7 +136,7 @@ fn c14_ym_int(v: i32) {
     kani::cover!(ki == -1);
 }
 
-//@ unit c14_ym_sym prop=C14,C03 chunks=ints:2136000000,1,-11,1000,-1068000000 quickn=3 mem=4 timeout=900/3600 bound="year-month interval = the parameter, multiplier = every f64: (-x)*k == -(x*k) == x*(-k), errors on all three or none"
+//@ unit c14_ym_sym prop=C14,C03 chunks=ints:2136000000,-11/ints:2136000000,-11,1,1000,-1068000000 mem=4 timeout=900/3600 quick=all bound="year-month interval = the parameter, multiplier = every f64: (-x)*k == -(x*k) == x*(-k), errors on all three or none"
 fn c14_ym_sym(v: i32) {
     let k: f64 = kani::any();
     let r = mk_ym(v).mul_f64(k);
@@ -179,7 +179,7 @@ fn check_dt(r: &crate::error::Result<IntervalDT>, p: f64) {
     }
 }
 
-//@ unit c14_dt_mul prop=C14,C02,C03 chunks=ints:8640000000000000000,1,-1,1000000,86400000000,-60000000,4194304 quickn=3 mem=6 timeout=1500/3600 bound="day-time interval = the parameter (microseconds), multiplier = every f64: classification and truncation toward zero"
+//@ unit c14_dt_mul prop=C14,C02,C03 chunks=ints:8640000000000000000,1000000,4194304/ints:8640000000000000000,1000000,4194304,1,-1,86400000000,-60000000 mem=6 timeout=1500/3600 quick=all bound="day-time interval = the parameter (microseconds), multiplier = every f64: classification and truncation toward zero"
 fn c14_dt_mul(v: i64) {
     let k: f64 = kani::any();
     let p = v as f64 * k;
@@ -204,7 +204,7 @@ fn c14_dt_sym(v: i64) {
     kani::cover!(r.is_ok());
 }
 
-//@ unit c14_dt_int prop=C14,C02,C03 chunks=ints:1,-1,1000000,86400000000,-60000000,123456789012,4194304 quickn=3 mem=6 timeout=1500/3600 bound="day-time interval = the parameter (below 2^53), factor = every i32 (as f64): the product is exact while |x*k| < 2^53; the quotient is exact whenever k divides x"
+//@ unit c14_dt_int prop=C14,C02,C03 chunks=ints:1,-1,4194304/ints:1,-1,4194304,1000000,86400000000,123456789012,-60000000 mem=6 timeout=1500/3600 quick=all bound="day-time interval = the parameter (below 2^53), factor = every i32 (as f64): the product is exact while |x*k| < 2^53; the quotient is exact whenever k divides x"
 fn c14_dt_int(v: i64) {
     let ki: i32 = kani::any();
     let prod = v as i128 * ki as i128;
